@@ -110,6 +110,24 @@ func cmdVC(args []string) {
 			}
 		}
 	}
+	for _, lm := range g.lemmas {
+		if !rx.MatchString("lemma:" + lm.Name) {
+			continue
+		}
+		fc := g.lemmaCtx(lm)
+		if fc.err != nil {
+			fmt.Printf("lemma %s: ERROR %v\n", lm.Name, fc.err)
+			continue
+		}
+		solveFunction(fc, cfg)
+		for _, o := range fc.obls {
+			tot++
+			if o.Verdict == "discharged" {
+				dis++
+			}
+			fmt.Printf("lemma %-40s %s (%s)\n", lm.Name, o.Verdict, o.Solver)
+		}
+	}
 	fmt.Printf("TOTAL %d/%d discharged\n", dis, tot)
 }
 
